@@ -274,7 +274,19 @@ Proof.
 Qed.
 
 (* whatever the object carried in base64_segments before: it is not an input *)
-Lemma prior_segments_irrelevant O g prior1 prior2 o d :
+Lemma prior_segments_irrelevant O g prior1 prior2 es o d :
   perform_encrypt_obj O prior1 g o d = perform_encrypt_obj O prior2 g o d /\
-  encrypt_json_obj O prior1 g o d = encrypt_json_obj O prior2 g o d.
+  encrypt_json_obj O prior1 es g o d = encrypt_json_obj O prior2 es g o d.
 Proof. split; reflexivity. Qed.
+
+(* the ephemeral key of a re-encryption: fresh unless the CALLER set one *)
+Lemma eph_select_rule s :
+  (es_cur s = None -> eph_select s = es_draw s) /\
+  (forall k, es_cur s = Some k -> es_generated s = true -> eph_select s = es_draw s) /\
+  (forall k, es_cur s = Some k -> es_generated s = false -> eph_select s = Some k).
+Proof.
+  unfold eph_select. repeat split; intros.
+  - rewrite H. reflexivity.
+  - rewrite H, H0. reflexivity.
+  - rewrite H, H0. reflexivity.
+Qed.
